@@ -160,6 +160,12 @@ CONTEXTS = [
     ("with_as", "A", "WITH {e} AS x SELECT x", True, (), _AL),
     ("with_paren_as", "A", "WITH ({e}) AS x SELECT x", True, (), _AL),
     ("where", "A", "SELECT 1 FROM t WHERE {e}", False, (), ()),
+    # scripts: the statement with the hole is the last one; earlier statements (valid, or failing and leaving errors behind)
+    ("after_valid", "A", "#last#SELECT a BETWEEN 1 AND 2 OR b, c ? 1 : 2; SELECT 2; SELECT {e}", False, (), ()),
+    ("after_between_error", "A", "#last#SELECT x BETWEEN 1; SELECT {e}", False, (), ()),
+    ("after_ternary_error", "A", "#last#SELECT x ? 1; SELECT 1 FROM t WHERE {e}", False, (), ()),
+    ("after_paren_error", "A", "#last#SELECT (1 +; SELEC 2; SELECT {e}", False, (), ()),
+    ("after_operator_error", "A", "#last#SELECT 1 +; SELECT a FROM; SELECT {e} FROM t", False, (), ()),
     ("prewhere", "A", "SELECT 1 FROM t PREWHERE {e}", False, (), ()),
     ("having", "A", "SELECT 1 FROM t GROUP BY k HAVING {e}", False, (), ()),
     ("groupby", "A", "SELECT 1 FROM t GROUP BY {e}", False, (), ()),
